@@ -36,8 +36,10 @@ L_emptyepic == <<EvNew("epic", "i1", "", "todo", "E1", "", 1), EvNew("task", "i2
 L_empty == <<>>
 
 S(name, init, cmds, readers) == [name |-> name, init |-> init, cmds |-> cmds, readers |-> readers, nolock |-> FALSE,
-                                 legacy |-> FALSE, rkind |-> "list", rid |-> ""]
+                                 legacy |-> FALSE, rkind |-> "list", rid |-> "", nolog |-> FALSE]
 SN(name, init, cmds, readers) == [S(name, init, cmds, readers) EXCEPT !.nolock = TRUE]
+NoLog(s) == [s EXCEPT !.nolog = TRUE]                                  \* .ergo exists, the log file does not
+InitCmd == [name |-> "init", mode |-> "json"]
 Legacy(s) == [s EXCEPT !.legacy = TRUE, !.name = @ \o "-legacy"]     \* the store holds only events.jsonl
 ShowEpic(s, e) == [s EXCEPT !.rkind = "show", !.rid = e, !.name = @ \o "-show"]
 P2(a, b) == ("p1" :> a) @@ ("p2" :> b)
@@ -76,6 +78,9 @@ PairScenarios == {
   S("prune-setdone", L_done, P2(Prune, SetState("i2", "done", "")), {}),
   S("prune-newchild", L_emptyepic, P2(Prune, NewTaskIn("i1")), {}),
   S("compact-new",   L_done, P2(Compact, NewTask), {}),
+  NoLog(S("init-new", L_empty, P2(InitCmd, NewTask), {})),
+  NoLog(S("init-plan", L_empty, P2(InitCmd, PlanAB), {})),
+  S("init-set", L_two, P2(InitCmd, SetState("i1", "done", "")), {}),
   S("claimid-setdone", L_two, P2(ClaimId("i1", "a1"), SetState("i1", "done", "")), {}),
   S("claimid-claimid", L_two, P2(ClaimId("i1", "a1"), ClaimId("i1", "a2")), {}),
   S("setdoing-setdone", L_two, P2(SetState("i1", "doing", "a1"), SetState("i1", "canceled", "")), {})
@@ -118,6 +123,6 @@ AllScenarios == ClaimScenarios \cup PairScenarios \cup ReaderScenarios \cup Cras
 ScenarioTable == PrintT("@SC " \o ToJson([s \in {x.name : x \in AllScenarios} |->
                      LET x == CHOOSE y \in AllScenarios : y.name = s IN
                        [init |-> x.init, cmds |-> x.cmds, readers |-> x.readers, nolock |-> x.nolock,
-                        legacy |-> x.legacy, rkind |-> x.rkind, rid |-> x.rid]]))
+                        legacy |-> x.legacy, rkind |-> x.rkind, rid |-> x.rid, nolog |-> x.nolog]]))
 ASSUME ScenarioTable
 =============================================================================
